@@ -3,7 +3,7 @@ import Model.Versioned
 /-! driver ops of C11 (prefix `c11.`)
 
 `c11.run op…` → `ok tok…`, one token per op: `out|versions|pins|writer`
-ops: `oL<h>` reader(), `oI<h>:<id>` reader(id=), `oS<h>:<serial>` reader(serial=), `c<h>` end of read txn `h`,
+ops: `oL<h>` reader(), `oI<h>:<id>` reader(id=), `oS<h>:<serial>` reader(serial=), `oB<h>:<id>:<serial>` reader(id=, serial=), `c<h>` end of read txn `h`,
 `w` writer(), `C<content>:<serial|->:<0|1>` commit (last field: did the txn change anything), `R` rollback,
 `M<int>` / `Mnone` set_max_versions, `Pnone` / `P.` / `P<id,id,…>` set_pruning_policy (ids on which the predicate is true),
 `Q<a>:<b>` set_pruning_policy(lambda zone, v: (a*len(zone._versions)+v.id) % (b+2) != 0),
@@ -27,6 +27,10 @@ def parseOp11 (s : String) : Option Op :=
   | 'o' :: 'S' :: r =>
     match (String.ofList r).splitOn ":" with
     | [h, i] => do some (Op.openSerial (← h.toNat?) (← i.toNat?))
+    | _ => none
+  | 'o' :: 'B' :: r =>
+    match (String.ofList r).splitOn ":" with
+    | [h, i, sn] => do some (Op.openBoth (← h.toNat?) (← i.toNat?) (← sn.toNat?))
     | _ => none
   | 'c' :: r => (String.ofList r).toNat?.map Op.close
   | ['w'] => some Op.wopen
@@ -79,10 +83,46 @@ def trace11 : State → List Op → List String
     let r := step s op
     s!"{showOut11 r.2}|{showState11 r.1}" :: trace11 r.1 rest
 
+/-! `c11.cow op…` → `ok tok…`: the copy-on-write bookkeeping after every operation of a write transaction:
+`c<changed names>|f<names whose node was created in this transaction>|v<number of committed versions>`.
+ops: `b0`/`b1` writer() / writer(replacement=True), `p<name>:<c>` put, `d<name>` delete_node, `f<c>:<name,…>` glue
+re-flagging of these names, `K` commit, `R` rollback. -/
+def parseCow (s : String) : Option CowOp :=
+  match s.toList with
+  | ['b', '0'] => some (.begin false)
+  | ['b', '1'] => some (.begin true)
+  | ['K'] => some .commit
+  | ['R'] => some .rollback
+  | 'p' :: r =>
+    match (String.ofList r).splitOn ":" with
+    | [n, c] => do some (.put (← n.toNat?) (← c.toNat?))
+    | _ => none
+  | 'd' :: r => (String.ofList r).toNat?.map CowOp.del
+  | 'f' :: r =>
+    match (String.ofList r).splitOn ":" with
+    | [c, ns] => do some (.flip (← parseNatList ns) (← c.toNat?))
+    | _ => none
+  | _ => none
+
+def showCow (s : CowState) : String :=
+  let sorted (l : List Nat) := dashJoin ((l.foldr insertNat []).map toString)
+  match s.w with
+  | none => s!"c-|f-|v{s.versions.length}"
+  | some x =>
+    let fresh := (x.nodes.filter (fun p => decide (x.base ≤ p.2))).map (·.1)
+    s!"c{sorted x.changed.eraseDups}|f{sorted fresh}|v{s.versions.length}"
+
+def traceCow : CowState → List CowOp → List String
+  | _, [] => []
+  | s, op :: rest => let s' := cowStep s op; showCow s' :: traceCow s' rest
+
 def handleC11 : List String → Option String
   | "c11.run" :: ops => do
     let ops ← ops.mapM parseOp11
     some (" ".intercalate ("ok" :: trace11 init ops))
+  | "c11.cow" :: ops => do
+    let ops ← ops.mapM parseCow
+    some (" ".intercalate ("ok" :: traceCow cowInit ops))
   | ["c11.sections", op] => do
     -- every operation of the model is ONE step of `Model.Versioned.step`, i.e. one critical section under
     -- `_version_lock`: choosing the version and registering the reader, removing a reader and pruning, appending a
